@@ -39,7 +39,9 @@ def findings():
 
 def seeded():
     out = ["## 7. Seeded changes: which checks catch which", "",
-           "Forty changes written by fresh sub-agents that saw only the text of one property and a scratch worktree (nothing",
+           f"{len(glob.glob(os.path.join(ROOT, 'seeded', '*', 'meta.json')))} changes, in waves (A/B, then C/D, then E/F per property; each later wave was",
+           "told what the earlier ones had done and asked for different mechanisms), written by fresh sub-agents that saw only",
+           "the text of one property and a scratch worktree (nothing",
            "from /verif). Each breaks its property, compiles, passes the repository's tests, needs something specific to",
            "manifest, and comes with a demonstration that fails with the change and passes without it; all of that was",
            "re-confirmed by `tools/eval_mutant.py` in a fresh worktree before the change was kept under `seeded/<id>/`",
